@@ -277,7 +277,7 @@ class C19(Sim):
               "normals_requested", "single_edge_polyline", "single_face_surface", "multi_component_polyline", "n1!=n2", "n1==n2",
               "chi2_test_run", "chi2_polyline", "chi2_surface", "t_out_of_range", "t_endpoint", "degree0", "patch_nonsquare_net",
               "shared_stream_run", "large_centre", "measured_then_deformed", "integer_control_net"]
-    QUICK_RUNS = 4500
+    QUICK_RUNS = 3000
     THOROUGH_RUNS = 300000
     BLOCK = 20
     ASSUMPTIONS = [
